@@ -15,7 +15,8 @@ EXTENDS Integers, Sequences, FiniteSets, TLC
 (*  sSAT "s SATISFIABLE"   sUNSAT "s UNSATISFIABLE"   sOther "s UNKNOWN"                                  *)
 (*  vA "v 1 -2"   vB0 "v 3 0"   vAB0 "v 1 -2 3 0"   v0 "v 0"   vBare "v"                                  *)
 (*  cmt "c text"  blank ""   garbage "hello"   vOOB "v 9 0"   vNonLit "v x 0"                             *)
-LineKinds == {"sSAT", "sUNSAT", "sOther", "vA", "vB0", "vAB0", "v0", "vBare", "cmt", "blank", "garbage", "vOOB", "vNonLit"}
+(*  vBin "v 1 <invalid UTF-8 bytes>"   bin "<invalid UTF-8 bytes>"   (a reply need not be text at all)       *)
+LineKinds == {"sSAT", "sUNSAT", "sOther", "vA", "vB0", "vAB0", "v0", "vBare", "cmt", "blank", "garbage", "vOOB", "vNonLit", "vBin", "bin"}
 LitsOf(k) == CASE k = "vA" -> <<1, -2>> [] k = "vB0" -> <<3, 0>> [] k = "vAB0" -> <<1, -2, 3, 0>> [] k = "v0" -> <<0>>
                [] k = "vOOB" -> <<9, 0>> [] OTHER -> <<>>
 IsV(k) == k \in {"vA", "vB0", "vAB0", "v0", "vOOB", "vNonLit"}
@@ -28,7 +29,7 @@ Count(ls, P(_)) == Cardinality({i \in 1..Len(ls) : P(ls[i])})
 (* the verdict the property assigns to a reply *)
 Classify(ls) ==
   LET nstat == Count(ls, LAMBDA k : k \in {"sSAT", "sUNSAT"})
-      bad   == Count(ls, LAMBDA k : k \in {"garbage", "vOOB", "vNonLit", "sOther"})
+      bad   == Count(ls, LAMBDA k : k \in {"garbage", "vOOB", "vNonLit", "sOther", "vBin", "bin"})
       lits  == Flat(ls)
       zeros == Cardinality({i \in 1..Len(lits) : lits[i] = 0})
       nv    == Count(ls, IsV)
@@ -51,7 +52,7 @@ ParseFrom(ls, status, seen, ended, lits) ==
        IF k \in {"sSAT", "sUNSAT"} THEN
             IF status # "none" THEN <<"abort", {}>>
             ELSE ParseFrom(Tail(ls), IF k = "sSAT" THEN "sat" ELSE "unsat", seen, ended, lits)
-       ELSE IF k \in {"vNonLit", "vOOB"} THEN <<"abort", {}>>
+       ELSE IF k \in {"vNonLit", "vOOB", "vBin", "bin"} THEN <<"abort", {}>>
        ELSE IF IsV(k) THEN
             LET w == LitsOf(k)
                 z == Cardinality({i \in 1..Len(w) : w[i] = 0})
